@@ -6,7 +6,7 @@ from .. import ref, cfgspace
 from ..ast import bind, show, walk, is_var
 
 ID = "C14"
-RULE = ("Mode G+M: EVERY configurator with 1..2 rules from a 33-rule menu (incl. defaulted rules whose non-default alternative is a compound package shared with other rules) (cc.Any / cc.Xor with and without default at every position, "
+RULE = ("Mode G+M: EVERY configurator with 1..2 rules from a 36-rule menu (incl. defaulted rules whose non-default alternative is a compound package shared with other rules) (cc.Any / cc.Xor with and without default at every position, "
         "pg.Any, pg.Xor, AtMost(k), All, Imply with item/All/Any conditions and item/All/defaulted consequences; explicit and generated rule "
         "ids) x EVERY priority dictionary of the alphabet (0..3 ids, values in {-3..3}\\{0}: ties, several levels, negatives, a rule id, an "
         "unknown id) -> select(*prios, solver=capture). oracle: over ALL feasible 0/1 points of the polyhedron the captured objective is "
